@@ -72,6 +72,11 @@ pub struct Step {
     /// kind `clock_jump`; needs the LD_PRELOAD clock shim, otherwise nothing happens)
     #[serde(default)]
     pub clock_jump_ms: u64,
+    /// nonzero: before the op, damage one of the files the library has left in the process's
+    /// private temp directory (torn / lost / zero-tailed / bit-flipped write), seeded by this
+    /// value (fault kind `disk_fault`; a no-op while the library writes no file)
+    #[serde(default)]
+    pub disk_fault: u64,
 }
 
 #[derive(Clone, Debug, Serialize, Deserialize)]
@@ -121,6 +126,10 @@ pub struct Scenario {
     /// change points (finds orderings that need few specific preemptions with higher probability)
     #[serde(default)]
     pub pct_depth: u8,
+    /// nonzero: seed of the write-path faults (short write, ENOSPC, EIO, failed fsync, failed
+    /// rename) on files the library opens for writing under its temp directory
+    #[serde(default)]
+    pub fs_fault: u64,
 }
 
 impl Scenario {
@@ -271,6 +280,7 @@ pub fn generate(g: &GenCtx, seed: u64) -> Scenario {
         mode: "normal".into(),
         sched_salt: 0,
         pct_depth: 0,
+        fs_fault: 0,
     };
     // ---- swarm configuration
     let crowd = rng.pct(if a5::verif::site::COUNT > 24 { 6 } else { 3 });
@@ -393,9 +403,9 @@ pub fn generate(g: &GenCtx, seed: u64) -> Scenario {
                 // valid A, poison P, valid A again: the fault lands between two uses of a slot
                 let a = intern(&mut sc, *rng.pick(&sub));
                 let p = intern(&mut sc, *rng.pick(&poison_sub));
-                steps.push(Step { op: a, repeat: 1, rekey: None, clock_jump_ms: 0 });
-                steps.push(Step { op: p, repeat: 1, rekey, clock_jump_ms: 0 });
-                steps.push(Step { op: a, repeat: 1, rekey: None, clock_jump_ms: 0 });
+                steps.push(Step { op: a, repeat: 1, rekey: None, clock_jump_ms: 0, disk_fault: 0 });
+                steps.push(Step { op: p, repeat: 1, rekey, clock_jump_ms: 0, disk_fault: 0 });
+                steps.push(Step { op: a, repeat: 1, rekey: None, clock_jump_ms: 0, disk_fault: 0 });
                 continue;
             }
             if siblings_on && !g.families.is_empty() && rng.pct(22) {
@@ -411,7 +421,7 @@ pub fn generate(g: &GenCtx, seed: u64) -> Scenario {
                     let members: Vec<u32> = (0..k).map(|_| intern(&mut sc, *rng.pick(f))).collect();
                     for _ in 0..rng.range(2, 12) {
                         for m in &members {
-                            steps.push(Step { op: *m, repeat: 1, rekey: None, clock_jump_ms: 0 });
+                            steps.push(Step { op: *m, repeat: 1, rekey: None, clock_jump_ms: 0, disk_fault: 0 });
                         }
                     }
                     continue;
@@ -427,25 +437,25 @@ pub fn generate(g: &GenCtx, seed: u64) -> Scenario {
                     }
                     for ix in run {
                         let op = intern(&mut sc, ix);
-                        steps.push(Step { op, repeat: 1, rekey: None, clock_jump_ms: 0 });
+                        steps.push(Step { op, repeat: 1, rekey: None, clock_jump_ms: 0, disk_fault: 0 });
                     }
                     continue;
                 }
                 let a = intern(&mut sc, *rng.pick(f));
-                steps.push(Step { op: a, repeat: 1, rekey: None, clock_jump_ms: 0 });
+                steps.push(Step { op: a, repeat: 1, rekey: None, clock_jump_ms: 0, disk_fault: 0 });
                 for _ in 0..rng.range(1, 3) {
                     let b = intern(&mut sc, *rng.pick(f));
-                    steps.push(Step { op: b, repeat: 1, rekey, clock_jump_ms: 0 });
+                    steps.push(Step { op: b, repeat: 1, rekey, clock_jump_ms: 0, disk_fault: 0 });
                 }
                 if rng.pct(60) {
-                    steps.push(Step { op: a, repeat: 1, rekey: None, clock_jump_ms: 0 });
+                    steps.push(Step { op: a, repeat: 1, rekey: None, clock_jump_ms: 0, disk_fault: 0 });
                 }
                 continue;
             }
             let ix = if !poison_sub.is_empty() && rng.pct(10) { *rng.pick(&poison_sub) } else { *rng.pick(&sub) };
             let op = intern(&mut sc, ix);
             let repeat = if rng.pct(6) { rng.range(2, 5) as u32 } else { 1 };
-            steps.push(Step { op, repeat, rekey, clock_jump_ms: 0 });
+            steps.push(Step { op, repeat, rekey, clock_jump_ms: 0, disk_fault: 0 });
         }
         let start = if t == 0 || !churn_on || crowd {
             Start::AtBegin
@@ -492,7 +502,7 @@ pub fn generate(g: &GenCtx, seed: u64) -> Scenario {
             let mut steps = Vec::new();
             for _ in 0..rng.range(3, 10) {
                 let op = intern(&mut sc, *rng.pick(&members));
-                steps.push(Step { op, repeat: 1, rekey: None, clock_jump_ms: 0 });
+                steps.push(Step { op, repeat: 1, rekey: None, clock_jump_ms: 0, disk_fault: 0 });
             }
             sc.threads.push(ThreadPlan { start: Start::AtBegin, hash_key: rng.next_u64(), steps, stack_kb: 0, exit_ops: Vec::new(), exit_guard_early: false });
         }
@@ -522,13 +532,13 @@ pub fn generate(g: &GenCtx, seed: u64) -> Scenario {
             let t = rng.below(sc.threads.len() as u64) as usize;
             let mut steps: Vec<Step> = Vec::new();
             let p = intern(&mut sc, pump);
-            steps.push(Step { op: p, repeat: 1, rekey: None, clock_jump_ms: 0 });
+            steps.push(Step { op: p, repeat: 1, rekey: None, clock_jump_ms: 0, disk_fault: 0 });
             for _ in 0..rng.range(4, 12) {
                 if probes.is_empty() {
                     break;
                 }
                 let op = intern(&mut sc, *rng.pick(&probes));
-                steps.push(Step { op, repeat: 1, rekey: None, clock_jump_ms: 0 });
+                steps.push(Step { op, repeat: 1, rekey: None, clock_jump_ms: 0, disk_fault: 0 });
             }
             let at = rng.below(sc.threads[t].steps.len() as u64 + 1) as usize;
             let tail = sc.threads[t].steps.split_off(at);
@@ -547,6 +557,23 @@ pub fn generate(g: &GenCtx, seed: u64) -> Scenario {
             }
         }
     }
+    // disk faults (fault kinds): drawn from a PRNG of their own so that they do not shift any
+    // other choice of the scenario
+    {
+        let mut fr = Rng::new(derive(seed, 0x6469_736b));
+        if fr.pct(12) {
+            for t in sc.threads.iter_mut() {
+                for st in t.steps.iter_mut() {
+                    if fr.pct(15) {
+                        st.disk_fault = fr.next_u64() | 1;
+                    }
+                }
+            }
+        }
+        if fr.pct(12) {
+            sc.fs_fault = fr.next_u64() | 1;
+        }
+    }
     // medium-haul: one op of a uniformly chosen kind repeated 30..3000 times (process- or
     // thread-wide call-count thresholds, caches that fill up)
     if rng.pct(12) {
@@ -559,7 +586,7 @@ pub fn generate(g: &GenCtx, seed: u64) -> Scenario {
                 let at = rng.below(sc.threads[t].steps.len() as u64 + 1) as usize;
                 // log-uniform in [30, 3000]
                 let repeat = (30.0 * (100.0f64).powf(rng.unit())) as u32;
-                sc.threads[t].steps.insert(at, Step { op, repeat, rekey: None, clock_jump_ms: 0 });
+                sc.threads[t].steps.insert(at, Step { op, repeat, rekey: None, clock_jump_ms: 0, disk_fault: 0 });
                 sc.mode = "medium_haul".into();
             }
         }
@@ -576,11 +603,11 @@ pub fn generate(g: &GenCtx, seed: u64) -> Scenario {
         let mut steps: Vec<Step> = Vec::new();
         for ix in &order {
             let op = intern(&mut sc, *ix);
-            steps.push(Step { op, repeat: 1, rekey: None, clock_jump_ms: 0 });
+            steps.push(Step { op, repeat: 1, rekey: None, clock_jump_ms: 0, disk_fault: 0 });
         }
         for _ in 0..rng.range(5, 40) {
             let op = intern(&mut sc, *rng.pick(&order));
-            steps.push(Step { op, repeat: 1, rekey: None, clock_jump_ms: 0 });
+            steps.push(Step { op, repeat: 1, rekey: None, clock_jump_ms: 0, disk_fault: 0 });
         }
         let at = rng.below(sc.threads[t].steps.len() as u64 + 1) as usize;
         let tail = sc.threads[t].steps.split_off(at);
@@ -622,7 +649,7 @@ pub fn generate(g: &GenCtx, seed: u64) -> Scenario {
                         continue;
                     }
                     let op = intern(&mut sc, ix);
-                    steps.push(Step { op, repeat: 1, rekey: None, clock_jump_ms: 0 });
+                    steps.push(Step { op, repeat: 1, rekey: None, clock_jump_ms: 0, disk_fault: 0 });
                     last = Some(ix);
                     if steps.len() - phase_start >= len || steps.len() >= 4000 {
                         break 'phase;
@@ -664,7 +691,7 @@ pub fn generate(g: &GenCtx, seed: u64) -> Scenario {
         let at = rng.below(sc.threads[t].steps.len() as u64 + 1) as usize;
         // mostly just across the 10 000-call threshold; sometimes across 2^16 (16-bit counters)
         let repeat = if rng.pct(12) { rng.range(65_600, 70_000) as u32 } else { rng.range(10_050, 12_500) as u32 };
-        sc.threads[t].steps.insert(at, Step { op, repeat, rekey: None, clock_jump_ms: 0 });
+        sc.threads[t].steps.insert(at, Step { op, repeat, rekey: None, clock_jump_ms: 0, disk_fault: 0 });
         // long-haul runs keep yields off: 10^4 repeats x yield sites would only slow the run down
         sc.yield_mask = 0;
     }
